@@ -149,7 +149,7 @@ def model_universe(name, thorough=False):
 
 def bounds(tier):
     if tier == "quick":
-        return {"toy_nodes": "all shapes: <=3 nodes to fixpoint, 4 nodes depth 4 (set/read/revert/clone/mode menu) + depth 3 with put/accumulate; named 5/6-node shapes depth 4",
+        return {"toy_nodes": "all shapes: <=3 nodes to fixpoint, 4 nodes depth 7 (set/read/revert/clone/mode menu) + depth 3 with put/accumulate; named 5/6-node shapes depth 4",
                 "model_graphs": "depth 2, reduced menu, all catalogue kinds"}
     return {"toy_nodes": "<=4 fixpoint; all 5-node shapes depth 4; named shapes fixpoint",
             "model_graphs": "depth 3, full menu, all catalogue kinds"}
@@ -160,7 +160,7 @@ def shards(tier, seed):
     if tier == "quick":
         for n in (2, 3, 4):
             for g_i, edges in enumerate(toy_graphs(n)):
-                out.append({"kind": "toy", "n": n, "edges": edges, "depth": None if n <= 3 else 4, "puts": False})
+                out.append({"kind": "toy", "n": n, "edges": edges, "depth": None if n <= 3 else 7, "puts": False})
                 out.append({"kind": "toy", "n": n, "edges": edges, "depth": 3, "accumulate": True})
         for name in NAMED_SHAPES:
             out.append({"kind": "named", "name": name, "depth": 4, "accumulate": False})
